@@ -4,8 +4,10 @@ manifest always matches what vcheck can run)"""
 import json, os, sys
 ROOT = os.path.dirname(os.path.dirname(os.path.abspath(__file__)))
 sys.path.insert(0, os.path.join(ROOT, "lib"))
-from props import PROPS
+from props import PROPS, EXTRA_TEXT
 from manifest_text import TEXT, NOT_APPLICABLE
+TEXT = dict(TEXT)
+TEXT.update(EXTRA_TEXT)
 
 BASE = "cd /repo && GOFLAGS=-mod=mod GOPROXY=off GOSUMDB=off go test -vet=off -count=1 -timeout 25m ./..."
 checks = []
